@@ -289,6 +289,8 @@ BULK_BREAKS = ('\n', '\r\n', '\r', '\x0b', '\x0c', '\x85', '\u2028', '\u2029')
 def chars_text(case):
     if 'bulk' in case:
         return bulk_text(case['bulk'], case['n'])
+    if 'thresh' in case:
+        return thresh_text(case['shape'], case['thresh'], case['d'], case['brk'], case['fill'])
     return case['template'].replace('X', ''.join(chr(cp) for cp in case['codepoints']))
 
 
@@ -306,6 +308,79 @@ def bulk_text(kind, n):
     if kind == 'final':
         text = text[:-1] if not text.endswith('\r\n') else text[:-2]
     return text
+
+
+# Long texts with a line break placed at / around a size threshold: an implementation that scans the text in chunks or
+# windows (or switches strategy above some size) is wrong exactly where a (two-character) break meets a chunk edge.
+# The thresholds are a sample: every power of two up to THRESH_MAX_POWER and every integer constant found by
+# introspection of the module under test (module globals, constants of the code of its functions), and powers of ten.
+
+THRESH_MAX_POWER_QUICK = 17
+THRESH_MAX_POWER_THOROUGH = 20
+THRESH_CONST_MAX_QUICK = 2 ** 20
+THRESH_CONST_MAX_THOROUGH = 2 ** 22
+THRESH_FILLERS = ('a', '\u20ac', '\U0001f600')   # 1-, 2- and 4-byte characters (CPython's internal string kinds)
+THRESH_SHAPES = (                                # name, the values of d
+    ('end', (-2, -1, 0, 1)),                     # filler * (T + d), break: the text ends with the break
+    ('single', (-2, -1, 0, 1)),                  # filler * (T + d), break, 'b 1', break, 'c': no final break
+    ('periodic', (0, 1, 2)),                     # filler * d, then 3 lines of exactly T characters (break included):
+    ('periodic-1', (0, 1, 2)),                   # d = 1 puts a two-character break across every multiple of T;
+    ('periodic+1', (0, 1, 2)),                   # the same with lines of T - 1 / T + 1 characters
+    ('dense', (0, 1)),                           # filler * d, then T // len(break) breaks in a row (+ 'c' if d): the two
+)                                                # parities put a two-character break across EVERY offset below T + d
+
+
+def _code_ints(code, out, depth=0):
+    for c in code.co_consts:
+        if type(c) is int:
+            out.add(c)
+        elif type(c) in (tuple, frozenset):
+            out.update(x for x in c if type(x) is int)
+        elif hasattr(c, 'co_consts') and depth < 3:
+            _code_ints(c, out, depth + 1)
+
+
+def split_module_constants(strutils, quick=True):
+    """Integer constants of the module under test that could be a chunk / window size of the splitter."""
+    found = set()
+    for name, v in sorted(vars(strutils).items(), key=lambda kv: kv[0]):
+        if name.startswith('__'):
+            continue
+        if type(v) is int:
+            found.add(v)
+        elif type(v) in (tuple, list, frozenset, set):
+            found.update(x for x in v if type(x) is int)
+    import types
+    for name, fn in sorted(vars(strutils).items(), key=lambda kv: kv[0]):
+        fn = getattr(fn, '__wrapped__', fn)
+        if not isinstance(fn, types.FunctionType) or getattr(fn, '__module__', None) != strutils.__name__:
+            continue
+        _code_ints(fn.__code__, found)
+        for dv in (fn.__defaults__ or ()):
+            if type(dv) is int:
+                found.add(dv)
+    top = THRESH_CONST_MAX_QUICK if quick else THRESH_CONST_MAX_THOROUGH
+    return sorted(v for v in found if 4 <= v <= top)
+
+
+def split_thresholds(strutils, quick=True):
+    top = THRESH_MAX_POWER_QUICK if quick else THRESH_MAX_POWER_THOROUGH
+    return sorted({2 ** k for k in range(2, top + 1)} | {10 ** k for k in range(1, 7) if 10 ** k <= 2 ** top}
+                  | set(split_module_constants(strutils, quick)))
+
+
+def thresh_text(shape, T, d, brk, fill):
+    B, F = BULK_BREAKS[brk], THRESH_FILLERS[fill]
+    if shape == 'end':
+        return F * (T + d) + B
+    if shape == 'single':
+        return F * (T + d) + B + 'b 1' + B + 'c'
+    if shape.startswith('periodic'):
+        P = T + {'periodic': 0, 'periodic-1': -1, 'periodic+1': 1}[shape]
+        return F * d + (F * (P - len(B)) + B) * 3
+    if shape == 'dense':
+        return F * d + B * (T // len(B)) + 'c' * d
+    raise ValueError(shape)
 
 
 def chars_shard(arg):
@@ -388,11 +463,28 @@ def chars_shard(arg):
                 if not one(strutils, {'part': 'iter_splitlines-chars', 'bulk': bk, 'n': n}, True,
                            tags=('bulk_text',)):
                     return t
+    elif kind in ('thresh-quick', 'thresh-thorough'):
+        # smallest threshold first; one shard per break form
+        thresholds = split_thresholds(strutils, kind == 'thresh-quick')
+        for T in thresholds:
+            if saw_hang():
+                t.add('cut_short_after_hang')
+                return t
+            for shape, ds in THRESH_SHAPES:
+                if shape == 'dense' and 1024 < T < thresholds[-1]:
+                    continue            # a prefix of the dense text of the largest threshold
+                for fill in range(len(THRESH_FILLERS)):
+                    for d in ds:
+                        t.add('threshold_texts')
+                        if not one(strutils, {'part': 'iter_splitlines-chars', 'thresh': T, 'shape': shape, 'd': d,
+                                              'brk': which, 'fill': fill}, True, tags=('long_text',)):
+                            return t
     return t
 
 
-def chars_shards():
-    return ([('sweep', k) for k in range(SWEEP_SHARDS)] + [('pairs', k) for k in range(16)] + [('bulk', 0)])
+def chars_shards(quick=True):
+    return ([('sweep', k) for k in range(SWEEP_SHARDS)] + [('pairs', k) for k in range(16)] + [('bulk', 0)]
+            + [('thresh-quick' if quick else 'thresh-thorough', k) for k in range(len(BULK_BREAKS))])
 
 
 # ---------------------------------------------------------------------------------------------------------------
@@ -1595,11 +1687,12 @@ def run(ctx):
             rule='text contains at least one of the 8 line-break forms')
         HANG_FLAG = os.path.join(scratch, 'HANG-1b')       # stop the exploration of the others
         t1b = inputs.run_shards(
-            ctx, chars_shard, chars_shards(), part='iter_splitlines-chars',
+            ctx, chars_shard, chars_shards(ctx.quick()), part='iter_splitlines-chars',
             rule='the character is a control, format or separator character (Unicode category C* / Z*, assigned) '
                  'or the text contains a listed line break')
         ctx.coverage['parts']['iter_splitlines-chars']['directed'] = (
-            'bulk texts: the numbers of lines are a sample (around powers of two), not every size')
+            'bulk texts: the numbers of lines are a sample (around powers of two), not every size; long texts with a '
+            'break at a size threshold: the thresholds are a sample (powers of two, integer constants of the module)')
         HANG_FLAG = os.path.join(scratch, 'HANG-2')
         t2 = inputs.run_shards(
             ctx, rev_shard, rev_shards(scratch, b['rev_maxtok'], REV_MODES), part='reverse_iter_lines',
@@ -1621,7 +1714,7 @@ def run(ctx):
             part='reverse_iter_lines-block-edges', rule='every content holds thousands of line breaks')
         ctx.coverage['parts']['reverse_iter_lines-block-edges']['directed'] = (
             'file sizes just above twice the default block size only')
-        from boltons import jsonutils as _ju
+        from boltons import jsonutils as _ju, strutils as _su
         HANG_FLAG = os.path.join(scratch, 'HANG-2e')
         t2e = inputs.run_shards(
             ctx, large_shard, [(scratch, n, v, REV_MODES) for n, v in large_sizes(_ju, ctx.quick())],
@@ -1699,7 +1792,15 @@ def run(ctx):
             'pairs': 'every 2-character text over U+0000..U+00FF (without \\x1c-\\x1e), U+2028, U+2029',
             'bulk': {'kinds': ['cycle through the 8 break forms', 'the same without the final break',
                                '\\x1f-delimited fields, \\n-terminated records'],
-                     'numbers_of_lines': bulk_sizes(), 'exhaustive_in_size': False}},
+                     'numbers_of_lines': bulk_sizes(), 'exhaustive_in_size': False},
+            'break_at_size_threshold': {
+                'thresholds_T': split_thresholds(_su, ctx.quick()),
+                'module_constants_taken_for_thresholds': split_module_constants(_su, ctx.quick()),
+                'shapes': {'end': 'F*(T+d) B', 'single': "F*(T+d) B 'b 1' B 'c'", 'periodic': 'F*d (F*(T-len(B)) B)*3',
+                           'periodic-1 / periodic+1': 'the same with T-1 / T+1 for T',
+                           'dense': "F*d B*(T//len(B)) 'c'*d (T <= 1024 and the largest T only)"},
+                'd': {name: list(ds) for name, ds in THRESH_SHAPES}, 'break_forms_B': list(BULK_BREAKS),
+                'fillers_F': list(THRESH_FILLERS), 'exhaustive_in_size': False}},
         'reverse_iter_lines-file-state': {
             'tokens': list(REV_TOKENS), 'max_tokens': b['rev_state_maxtok'],
             'blocksizes': '1, 2, 3, len(bytes)-1, len(bytes), len(bytes)+1 and the default 4096',
@@ -1775,6 +1876,11 @@ def run(ctx):
         'preseek=False is explored only with the cursor at the end of the file; rel_seek is not explored',
         'without ignore_errors the iterator is driven up to the first ValueError only (resuming is not promised)',
         'long runs of skipped lines are explored for a sample of run lengths only (directed scenario)',
+        'ignore_errors is the constructor argument (the only documented form): assigning the instance attribute '
+        'ignore_errors after construction (before iterating, or after a first ValueError in order to go on leniently) '
+        'is outside the statement - the attribute is not documented, and resuming after an error is not promised',
+        'long texts are explored for a sample of shapes only: a filler, a line break of every form at / around every '
+        'size threshold (powers of two, powers of ten, integer constants of boltons.strutils +-1)',
         'str.splitlines also breaks at \\x1c-\\x1e, which the statement does not list: texts containing them are '
         'outside its domain and are the only code points never passed to iter_splitlines',
         'a file with unflushed writes has the content that reading it back through the same object would show',
@@ -1799,7 +1905,12 @@ def replay(ctx, data):
         bad = check_split(strutils, text)
         if bad:
             msgs.append('%s %s' % (bad[0], ('text=%r expected=%r observed=%r' % (text, bad[1], bad[2]))
-                                   if len(text) < 100 else 'bulk text %s n=%d' % (case['bulk'], case['n'])))
+                                   if len(text) < 100 else
+                                   'bulk text %s n=%d' % (case['bulk'], case['n']) if 'bulk' in case else
+                                   'text=thresh_text(%r, %d, %d, %d, %d) (%s: T=%d d=%d break=%a filler=%a, %d characters)'
+                                   % (case['shape'], case['thresh'], case['d'], case['brk'], case['fill'], case['shape'],
+                                      case['thresh'], case['d'], BULK_BREAKS[case['brk']],
+                                      THRESH_FILLERS[case['fill']], len(text))))
     elif part == 'indent':
         bad = check_indent(strutils, case['text'], INDENT_SETTINGS[case['setting']])
         if bad:
